@@ -7,6 +7,7 @@ import (
 	"io"
 	"os"
 	"path/filepath"
+	"slices"
 	"sort"
 	"strings"
 	"sync"
@@ -120,7 +121,8 @@ func (token *Stateful) Check(host, group string) (string, []string, error) {
 		user = *token.Username
 	}
 
-	return user, token.Permissions, nil
+	// the caller might modify the list
+	return user, slices.Clone(token.Permissions), nil
 }
 func (token *Stateful) NeedsUsername() bool {
 	return token.Username == nil
